@@ -18,11 +18,12 @@ LEVEL_TEXT = (
     'identifiers iff ADD-PATH send, AS_PATH width and AS_TRANS/AS4_PATH follow ASN4, eBGP prepend is the true local AS); OPENs the RFCs '
     'require refusing get their OPEN error subcode.'
     " Wide configurations (12-21 families, long names) make ExaBGP's own OPEN use the RFC 9072 form; `local-as auto` neighbors."
+    ' A quarter of the plans run a second neighbor with the other ADD-PATH setting in the same process, its sessions interleaved with the first.'
 )
 LEVEL_NOTE = 'trusts: the reference negotiation function and OPEN codec in this file / refbgp; where only one side sent no MP capability at all the families comparison is skipped (arguable RFC default)'
 DESIGN_REF = 'DESIGN.md section 5, C07'
 RULE = (
-    'plan = neighbor configuration x up to 6 peer OPEN specifications (one session each); non-trivial = the session established and at '
+    'plan = neighbor configuration x up to 6 peer OPEN specifications (one session each) [x a second neighbor with up to 4 more]; non-trivial = the session established and at '
     'least one behavioural probe ran, or a refusal class was exercised; distinct = digests of (configuration, OPEN capability multiset)'
 )
 ASSUMPTIONS = [
@@ -31,7 +32,7 @@ ASSUMPTIONS = [
     'ADD-PATH is configured only for the families exabgp implements it for (unicast, labelled, VPN); host/domain names stay within 64 bytes',
 ]
 
-LOCAL, PEER = '10.0.0.1', '10.0.0.2'
+LOCAL, PEER, PEER2 = '10.0.0.1', '10.0.0.2', '10.0.0.3'
 ALL_FAMS = [(1, 1), (2, 1), (1, 2), (1, 4), (1, 128)]
 AP_SUPPORTED = [(1, 1), (2, 1), (1, 4), (1, 128)]
 WIDE_FAMS = [
@@ -44,6 +45,39 @@ FAM_TEXT.update({(1, 5): 'ipv4 mcast-vpn', (2, 5): 'ipv6 mcast-vpn', (1, 85): 'i
 
 def counts(tier: str):
     return (1000, 75.0) if tier == 'quick' else (15000, 900.0)
+
+
+def gen_open(rng, conf: dict) -> dict:
+    kind = rng.choice(['ok', 'ok', 'ok', 'ok', 'bad-as', 'bad-id', 'bad-hold', 'bad-version', 'same-id'])
+    if conf['local_auto'] and kind == 'bad-as':
+        kind = 'ok'  # what exabgp answers to a peer whose AS is not the configured peer-as is not modelled for the mirroring case
+    pf = rng.sample(ALL_FAMS, rng.randint(0, 4))
+    if rng.chance(0.7) and (1, 1) not in pf:
+        pf.append((1, 1))
+    caps = [['mp', a, s] for a, s in pf]
+    if rng.chance(0.8):
+        caps.append(['asn4'])
+    if rng.chance(0.7):
+        caps.append(['refresh'])
+    if rng.chance(0.4):
+        caps.append(['enh'])
+    if rng.chance(0.5):
+        caps.append(['extmsg'])
+    if rng.chance(0.5):
+        caps.append(['addpath', [[a, s, rng.choice([1, 2, 3])] for a, s in rng.sample(ALL_FAMS, rng.randint(1, 3))]])
+    if rng.chance(0.3):
+        caps.append(['nexthop', [[1, 1, 2], [1, 128, 2]][: rng.randint(1, 2)]])
+    if rng.chance(0.3):
+        caps.append(['gr', rng.choice([0, 120])])
+    if rng.chance(0.3):
+        caps.append(['unknown', rng.choice([99, 128, 200]), rng.randint(0, 6)])
+    if rng.chance(0.2):
+        if caps:
+            caps.append(rng.choice(caps))  # duplicate
+    rng.shuffle(caps)
+    if conf['local_auto'] and ['asn4'] not in caps:
+        caps.append(['asn4'])  # the AS exabgp mirrors must be stated unambiguously
+    return {'kind': kind, 'hold': rng.choice([0, 3, 9, 90, 180, 65535]), 'caps': caps, 'one_param': rng.chance(0.5), 'ext': rng.choice([None, None, True]), 'pad': rng.choice([0, 0, 300]), 'fit': rng.choice([None, None, 253, 254, 255, 255])}
 
 
 def generate(rng, tier: str, index: int) -> dict:
@@ -77,37 +111,21 @@ def generate(rng, tier: str, index: int) -> dict:
     # `local-as auto`: exabgp reads the peer's OPEN first and answers with the peer's AS (an iBGP session whatever the peer is)
     conf['local_auto'] = rng.chance(0.1)
     for _ in range(rng.randint(1, 6)):
-        kind = rng.choice(['ok', 'ok', 'ok', 'ok', 'bad-as', 'bad-id', 'bad-hold', 'bad-version', 'same-id'])
-        if conf['local_auto'] and kind == 'bad-as':
-            kind = 'ok'  # what exabgp answers to a peer whose AS is not the configured peer-as is not modelled for the mirroring case
-        pf = rng.sample(ALL_FAMS, rng.randint(0, 4))
-        if rng.chance(0.7) and (1, 1) not in pf:
-            pf.append((1, 1))
-        caps = [['mp', a, s] for a, s in pf]
-        if rng.chance(0.8):
-            caps.append(['asn4'])
-        if rng.chance(0.7):
-            caps.append(['refresh'])
-        if rng.chance(0.4):
-            caps.append(['enh'])
-        if rng.chance(0.5):
-            caps.append(['extmsg'])
-        if rng.chance(0.5):
-            caps.append(['addpath', [[a, s, rng.choice([1, 2, 3])] for a, s in rng.sample(ALL_FAMS, rng.randint(1, 3))]])
-        if rng.chance(0.3):
-            caps.append(['nexthop', [[1, 1, 2], [1, 128, 2]][: rng.randint(1, 2)]])
-        if rng.chance(0.3):
-            caps.append(['gr', rng.choice([0, 120])])
-        if rng.chance(0.3):
-            caps.append(['unknown', rng.choice([99, 128, 200]), rng.randint(0, 6)])
-        if rng.chance(0.2):
-            if caps:
-                caps.append(rng.choice(caps))  # duplicate
-        rng.shuffle(caps)
-        if conf['local_auto'] and ['asn4'] not in caps:
-            caps.append(['asn4'])  # the AS exabgp mirrors must be stated unambiguously
-        opens.append({'kind': kind, 'hold': rng.choice([0, 3, 9, 90, 180, 65535]), 'caps': caps, 'one_param': rng.chance(0.5), 'ext': rng.choice([None, None, True]), 'pad': rng.choice([0, 0, 300]), 'fit': rng.choice([None, None, 253, 254, 255, 255])})
-    return {'micro_seed': rng.randint(1, 1 << 48), 'knobs': knobs(rng), 'conf': conf, 'opens': opens}
+        opens.append(gen_open(rng, conf))
+    plan = {'micro_seed': rng.randint(1, 1 << 48), 'knobs': knobs(rng), 'conf': conf, 'opens': opens}
+    # a second neighbor in the same process with the other ADD-PATH setting, its sessions interleaved with the first one's: what one
+    # session negotiated is no business of another (a side stream: the plans generated so far keep their draws)
+    f = rng.fork('second')
+    if f.chance(0.25) and ap_ok and not conf['local_auto']:
+        if conf['addpath'] != 'disable':
+            second = {'addpath': 'disable', 'addpath_families': []}
+        else:
+            second = {'addpath': f.choice(['send', 'receive', 'send/receive']), 'addpath_families': f.sample(ap_ok, f.randint(1, len(ap_ok)))}
+        c2 = dict(conf, **second)
+        second['opens'] = [dict(gen_open(f, c2), kind='ok') for _ in range(f.randint(1, 4))]
+        second['start'] = f.choice([0.0, 0.0, 1.0, 3.0, 6.0])
+        plan['second'] = second
+    return plan
 
 
 def peer_caps(spec: dict, peer_as: int) -> list[tuple[int, bytes]]:
@@ -151,7 +169,7 @@ def peer_caps(spec: dict, peer_as: int) -> list[tuple[int, bytes]]:
 
 def build_peer_open(spec: dict, conf: dict) -> bytes:
     asn = conf['peer_as']
-    rid = PEER
+    rid = conf.get('peer_rid', PEER)
     hold = spec['hold']
     version = 4
     k = spec['kind']
@@ -239,88 +257,113 @@ def execute(plan: dict) -> dict:
         nb['host-name'] = conf['hostname']
     if conf['domain']:
         nb['domain-name'] = conf['domain']
+    nbs = [nb]
+    second = plan.get('second')
+    conf2 = None
+    if second:
+        conf2 = dict(conf, addpath=second['addpath'], addpath_families=second['addpath_families'], peer_rid=PEER2)
+        nbs.append(dict(nb, peer_ip=PEER2, caps=dict(caps, **{'add-path': conf2['addpath']}), addpath_families=conf2['addpath_families'] or None))
     spk = Speaker(w, 'p1', PEER, conf['peer_as'], PEER, LOCAL, hold=90, caps=[])
     spk.auto_open = False
     spk.auto_keepalive = True
-    w.boot(config_text([{'name': 'h1'}], [nb]))
+    spk2 = None
+    if second:
+        spk2 = Speaker(w, 'p2', PEER2, conf['peer_as'], PEER2, LOCAL, hold=90, caps=[])
+        spk2.auto_open = False
+        spk2.auto_keepalive = True
+        if second.get('start'):
+            spk2.accept_mode = 'refuse'
+            w.at(second['start'], lambda: setattr(spk2, 'accept_mode', 'accept'))
+    w.boot(config_text([{'name': 'h1'}], nbs))
     h = w.procs.helper('h1')
-    queue = list(plan['opens'])
     records: list[dict] = []
-    probes = {'sessions': 0, 'established': 0, 'refusals': 0, 'probe_4097': 0, 'probe_route': 0, 'ext_params_form': 0}
+    probes = {'sessions': 0, 'established': 0, 'refusals': 0, 'probe_4097': 0, 'probe_route': 0, 'ext_params_form': 0, 'second_neighbor_sessions': 0}
+    queues = {}
 
-    def on_session(sess) -> None:
-        if not queue:
-            spk.accept_mode = 'refuse'
-            sess.close()
-            return
-        spec = queue.pop(0)
-        rec = {'spec': spec, 'sess': sess, 'negotiated_line': None, 'lines0': len(h.lines)}
-        records.append(rec)
-        sess.c07 = rec
-        probes['sessions'] += 1
-        data = build_peer_open(spec, conf)
-        sess.sent_open = True
-        sess.open_tx = data
-        spk.caps = peer_caps(spec, conf['peer_as'])
-        spk.hold = spec['hold']
-        sess.send(data)
-        if sess.open_rx is not None and not sess.sent_ka:
-            sess.sent_ka = True
-            sess.send(R.keepalive())
+    def attach(spk, queue, cf, peer_ip) -> None:
+        queues[peer_ip] = queue
 
-    def on_established(sess) -> None:
-        rec = getattr(sess, 'c07', None)
-        if rec is None:
-            return
-        probes['established'] += 1
-        rec['established'] = True
-        # behavioural probes
-        def probe_route() -> None:
-            probes['probe_route'] += 1
-            rec['route_probe_at'] = len(sess.updates)
-            h.emit(b'peer * announce route 198.51.100.0/24 next-hop 10.0.0.9 path-information 5 as-path [ 65010 65011 ]\npeer * announce route 198.51.101.0/24 next-hop 10.0.0.9 path-information 6\n')
-
-        def probe_big() -> None:
-            if sess.state == 'closed':
+        def on_session(sess) -> None:
+            if not queue:
+                spk.accept_mode = 'refuse'
+                sess.close()
                 return
-            probes['probe_4097'] += 1
-            rec['big_sent'] = True
-            attrs = R.attribute(R.A_ORIGIN, b'\x00') + R.attribute(R.A_AS_PATH, R.enc_as_path([(2, [conf['peer_as']])], sess.ctx.asn4)) + R.attribute(R.A_NEXT_HOP, bytes([10, 0, 0, 2]))
-            filler = R.attribute(201, b'z' * (4097 - 19 - 4 - len(attrs) - 4 - 4), flags=0xC0, extlen=True)
-            msg = R.build_update(attrs=attrs + filler, nlri=bytes([24, 203, 0, 113]))
-            assert len(msg) == 4097, len(msg)
-            sess.send(msg)
+            spec = queue.pop(0)
+            rec = {'spec': spec, 'sess': sess, 'negotiated_line': None, 'lines0': len(h.lines), 'conf': cf, 'peer_ip': peer_ip}
+            records.append(rec)
+            sess.c07 = rec
+            probes['sessions'] += 1
+            if peer_ip != PEER:
+                probes['second_neighbor_sessions'] += 1
+            data = build_peer_open(spec, cf)
+            sess.sent_open = True
+            sess.open_tx = data
+            spk.caps = peer_caps(spec, cf['peer_as'])
+            spk.hold = spec['hold']
+            sess.send(data)
+            if sess.open_rx is not None and not sess.sent_ka:
+                sess.sent_ka = True
+                sess.send(R.keepalive())
 
-        w.after(0.5, probe_route)
-        w.after(2.0, probe_big)
-        w.after(4.0, lambda: sess.close() if sess.state != 'closed' else None)
+        def on_established(sess) -> None:
+            rec = getattr(sess, 'c07', None)
+            if rec is None:
+                return
+            probes['established'] += 1
+            rec['established'] = True
 
-    def on_open(sess) -> None:
-        pass
+            # behavioural probes
+            def probe_route() -> None:
+                probes['probe_route'] += 1
+                rec['route_probe_at'] = len(sess.updates)
+                h.emit(f'peer {peer_ip} announce route 198.51.100.0/24 next-hop 10.0.0.9 path-information 5 as-path [ 65010 65011 ]\npeer {peer_ip} announce route 198.51.101.0/24 next-hop 10.0.0.9 path-information 6\n'.encode())
 
-    spk.on_session.append(on_session)
-    spk.on_established.append(on_established)
+            def probe_big() -> None:
+                if sess.state == 'closed':
+                    return
+                probes['probe_4097'] += 1
+                rec['big_sent'] = True
+                attrs = R.attribute(R.A_ORIGIN, b'\x00') + R.attribute(R.A_AS_PATH, R.enc_as_path([(2, [cf['peer_as']])], sess.ctx.asn4)) + R.attribute(R.A_NEXT_HOP, bytes([10, 0, 0, 2]))
+                filler = R.attribute(201, b'z' * (4097 - 19 - 4 - len(attrs) - 4 - 4), flags=0xC0, extlen=True)
+                msg = R.build_update(attrs=attrs + filler, nlri=bytes([24, 203, 0, 113]))
+                assert len(msg) == 4097, len(msg)
+                sess.send(msg)
+
+            w.after(0.5, probe_route)
+            w.after(2.0, probe_big)
+            w.after(4.0, lambda: sess.close() if sess.state != 'closed' else None)
+
+        spk.on_session.append(on_session)
+        spk.on_established.append(on_established)
+
+    attach(spk, list(plan['opens']), conf, PEER)
+    if second:
+        attach(spk2, list(second['opens']), conf2, PEER2)
 
     def driver() -> None:
-        cur = spk.current()
-        if not queue and (cur is None or cur.state == 'closed'):
+        busy = False
+        for sp in [spk] + ([spk2] if spk2 else []):
+            cur = sp.current()
+            if queues[sp.ip] or not (cur is None or cur.state == 'closed'):
+                busy = True
+            # an OPEN exabgp neither accepts nor refuses within 20 s is released
+            if cur is not None and getattr(cur, 'c07', None) and cur.established_at is None and cur.state != 'closed' and w.loop.mono - cur_start(cur) > 20.0:
+                cur.c07['stuck'] = True
+                cur.reset()
+        if not busy:
             w.signal('SHUTDOWN')
             return
-        # an OPEN exabgp neither accepts nor refuses within 20 s is released
-        if cur is not None and getattr(cur, 'c07', None) and cur.established_at is None and w.loop.mono - cur_start(cur) > 20.0:
-            cur.c07['stuck'] = True
-            cur.reset()
         w.after(0.5, driver)
 
     def cur_start(s) -> float:
         return getattr(s, '_t0', None) or setattr(s, '_t0', w.loop.mono) or w.loop.mono
 
     w.at(0.5, driver)
-    w.run(until=60.0 * (len(plan['opens']) + 1))
+    w.run(until=60.0 * (len(plan['opens']) + len((second or {}).get('opens', [])) + 1))
 
     violations = []
     for rec in records:
-        v = judge(w, h, conf, rec, probes)
+        v = judge(w, h, rec['conf'], rec, probes)
         if v:
             violations.append(v)
             break
@@ -384,7 +427,10 @@ def judge(w, h, conf, rec, probes):
     for t, line in h.lines[rec['lines0'] :]:
         if '"type": "negotiated"' in line:
             try:
-                ev = json.loads(line)['neighbor']['negotiated']
+                doc = json.loads(line)
+                if doc['neighbor']['address']['peer'] != rec.get('peer_ip', PEER):
+                    continue  # the other neighbor's session
+                ev = doc['neighbor']['negotiated']
             except (ValueError, KeyError):
                 return viol('C07/negotiated-event-unparsable', line[:300])
             break
